@@ -34,6 +34,19 @@ Fixpoint cw (fuel : nat) (g : graph) (cur : option node) (sofar : list cert) (la
       | Some n =>
           if in_chain n sofar then [] else                      (* a self-signed non-root leads back into the chain *)
           if Nat.leb max_intermediate (length sofar) then [] else
+          (* root certificates issued to the current node end the chain, whatever their own issuer *)
+          flat_map (fun x : node * N =>
+                      let '(ch, fp) := x in
+                      if negb (node_eqb ch n) then [] else      (* current.rootEdges *)
+                      match find_edge fp (g_edges g) with
+                      | None => []
+                      | Some e =>
+                          if can_add (e_cert e) true sofar
+                          then cw f g (e_iss e) (sofar ++ [e_cert e]) e
+                          else []
+                      end)
+                   (g_roots g)
+          ++
           flat_map (fun t : trip =>
                       let '(ch, tgt, fp) := t in
                       if negb (node_eqb ch n) then [] else      (* current.parentsBySubjectAndKey *)
@@ -41,7 +54,8 @@ Fixpoint cw (fuel : nat) (g : graph) (cur : option node) (sofar : list cert) (la
                       match find_edge fp (g_edges g) with
                       | None => []
                       | Some e =>
-                          if can_add (e_cert e) (e_root e) sofar
+                          if e_root e then [] else              (* roots are handled above *)
+                          if can_add (e_cert e) false sofar
                           then cw f g (e_iss e) (sofar ++ [e_cert e]) e
                           else []
                       end)
